@@ -19,7 +19,14 @@ Types == {"num", "str", "bool", "null", "arr"}
 RecvTypes == Types \cup {"cmd"}
 Num(c) == [k |-> "num", v |-> c]
 StrL(s) == [k |-> "str", segs |-> <<[k |-> "lit", v |-> s]>>]
-Val(t) == CASE t = "num" -> Num(4) [] t = "str" -> StrL(<<115>>) [] t = "bool" -> [k |-> "bool", v |-> TRUE]
+\* numbers at the edges of the native conversions (index -> usize, timeout -> u32, slice bound -> isize): 2^32, -2^32,
+\* 1e300, and not-a-number (1e300 * 1e300 - 1e300 * 1e300)
+ExtTypes == {"big", "negbig", "huge", "nan"}
+Raw(t) == [k |-> "rawnum", t |-> t]
+Huge == Raw("1000000000000000000000000000000000000000000000000000000000000000000000000000000000000000000000000000000000000000000000000000000000000000000000000000000000000000000000000000000000000000000000000000000000000000000000000000000000000000000000000000000000000000000000000000000000000000000000000000000000000")
+ExtVal0(t) == CASE t = "big" -> Raw("4294967296") [] t = "negbig" -> [k |-> "un", op |-> "neg", e |-> Raw("4294967296")] [] t = "huge" -> Huge
+               [] t = "nan" -> [k |-> "bin", op |-> "minus", l |-> [k |-> "bin", op |-> "times", l |-> Huge, r |-> Huge], r |-> [k |-> "bin", op |-> "times", l |-> Huge, r |-> Huge]]
+Val(t) == CASE t \in {"big", "negbig", "huge", "nan"} -> ExtVal0(t) [] t = "num" -> Num(4) [] t = "str" -> StrL(<<115>>) [] t = "bool" -> [k |-> "bool", v |-> TRUE]
             [] t = "null" -> [k |-> "null"] [] t = "arr" -> [k |-> "arr", es |-> <<Num(4)>>]
             [] t = "cmd" -> [k |-> "call", f |-> "command", site |-> 0, as |-> <<[k |-> "str", segs |-> <<[k |-> "lit", v |-> <<101, 99, 104, 111>>]>>]>>]
 Var(x) == [k |-> "var", n |-> x, site |-> 0]
@@ -131,7 +138,12 @@ TypeSeqs(n) == CASE n = 1 -> {<<a>> : a \in Types} [] n = 2 -> {<<a, b>> : a \in
 \* method-like sites also get a process_command receiver
 RecvSeqs(s) == IF s.key[1] \in {"method", "builder", "member", "method-missing-arg"}
                THEN {[ts EXCEPT ![1] = "cmd"] : ts \in TypeSeqs(s.n)} ELSE {}
+\* operand sequences with at least one extreme number (sites with one or two operands; two routes)
+ExtSeqs(n) == CASE n = 1 -> {<<a>> : a \in ExtTypes}
+                [] n = 2 -> {<<a, b>> : a \in Types \cup ExtTypes, b \in Types \cup ExtTypes} \ {<<a, b>> : a \in Types, b \in Types}
+                [] OTHER -> {}
 Cases == UNION {{[s |-> s, ts |-> ts, rt |-> rt] : ts \in TypeSeqs(s.n) \cup RecvSeqs(s), rt \in Routes} : s \in Sites}
+         \cup UNION {{[s |-> s, ts |-> ts, rt |-> rt] : ts \in ExtSeqs(s.n), rt \in {"param", "callresult"}} : s \in Sites}
 
 VARIABLES c, prog, m, fuel
 vars == <<c, prog, m, fuel>>
